@@ -94,40 +94,46 @@ class TaskScheduler(object):
         init_num_tasks = len(self._tasks)
         self._tasks.append(root_task)
 
-        # Run the execution loop until the root_task is complete (it's either blocked on batch
-        # items waiting to be flushed, or computed).
-        while len(self._tasks) > init_num_tasks:
-            if len(self._tasks) > _debug_options.MAX_TASK_STACK_SIZE:
-                self.reset()
-                debug.dump(self)
-                raise RuntimeError(
-                    "Number of scheduled tasks exceeded maximum threshold."
-                )
+        try:
+            # Run the execution loop until the root_task is complete (it's either blocked on batch
+            # items waiting to be flushed, or computed).
+            while len(self._tasks) > init_num_tasks:
+                if len(self._tasks) > _debug_options.MAX_TASK_STACK_SIZE:
+                    self.reset()
+                    debug.dump(self)
+                    raise RuntimeError(
+                        "Number of scheduled tasks exceeded maximum threshold."
+                    )
 
-            # _tasks is a stack, so take the last one.
-            task = self._tasks[-1]
-            if _debug_options.DUMP_SCHEDULER_STATE:
-                self.try_time_based_dump()
+                # _tasks is a stack, so take the last one.
+                task = self._tasks[-1]
+                if _debug_options.DUMP_SCHEDULER_STATE:
+                    self.try_time_based_dump()
 
-            if task.is_computed():
-                self._tasks.pop()
-            elif isinstance(task, AsyncTask):
-                self._handle_async_task(task)
-            elif isinstance(task, batching.BatchItemBase):
-                # This can happen multiple times per batch item (if we run _execute and this batch
-                # item doesn't get flushed), but that's ok because self._batches is a set.
-                self._schedule_batch(task.batch)
-                self._tasks.pop()
-            else:
-                try:
-                    task._compute()
-                except Exception:
-                    # A future whose computation failed (e.g. a Future with a raising value
-                    # provider) has stored the error; it is delivered to the tasks awaiting it
-                    # when they are continued, like the error of any other dependency.
-                    if not task.is_computed():
-                        raise
-                self._tasks.pop()
+                if task.is_computed():
+                    self._tasks.pop()
+                elif isinstance(task, AsyncTask):
+                    self._handle_async_task(task)
+                elif isinstance(task, batching.BatchItemBase):
+                    # This can happen multiple times per batch item (if we run _execute and this batch
+                    # item doesn't get flushed), but that's ok because self._batches is a set.
+                    self._schedule_batch(task.batch)
+                    self._tasks.pop()
+                else:
+                    try:
+                        task._compute()
+                    except Exception:
+                        # A future whose computation failed (e.g. a Future with a raising value
+                        # provider) has stored the error; it is delivered to the tasks awaiting it
+                        # when they are continued, like the error of any other dependency.
+                        if not task.is_computed():
+                            raise
+                    self._tasks.pop()
+        except BaseException:
+            # An exception is escaping the loop (e.g. a context raised while the generator of
+            # a failed task was being closed): don't leave our part of the task stack behind.
+            del self._tasks[init_num_tasks:]
+            raise
 
     def _schedule_batch(self, batch):
         if batch.is_flushed():
@@ -204,16 +210,21 @@ class TaskScheduler(object):
             debug.write("@async: -> continuing %s" % debug.str(task))
         if _debug_options.COLLECT_PERF_STATS:
             start = utime()
-            task._continue()
+            try:
+                task._continue()
+            finally:
+                self.active_task = old_task
             task._total_time += utime() - start
             if task.is_computed():
                 task.dump_perf_stats()
         else:
-            task._continue()
+            try:
+                task._continue()
+            finally:
+                self.active_task = old_task
         if _debug_options.DUMP_CONTINUE_TASK:
             debug.write("@async: <- continued %s" % debug.str(task))
 
-        self.active_task = old_task
         # We get a new set of dependencies when we run _continue, so these haven't
         # been scheduled.
         task._dependencies_scheduled = False
